@@ -30,7 +30,19 @@ process.on('unhandledRejection', function (r) { events.push('unhandled:' + cv(r)
 process.on('uncaughtException', function (e) { events.push('uncaught:' + cv(e)); });
 
 function tick() { return new Promise(function (r) { setImmediate(r); }); }
-async function settle() { for (let i = 0; i < 4; i++) await tick(); }
+function sleep(ms) { return new Promise(function (r) { setTimeout(r, ms); }); }
+// Quiescence: native dynamic imports read files asynchronously, so wait until there are no active
+// libuv requests and the event log has been stable for a few consecutive turns (bounded at ~3 s).
+async function settle() {
+  let stable = 0, last = -1;
+  for (let i = 0; i < 600 && stable < 4; i++) {
+    await tick();
+    await sleep(i < 20 ? 1 : 5);
+    const busy = typeof process._getActiveRequests === 'function' && process._getActiveRequests().length > 0;
+    if (!busy && events.length === last) stable++; else stable = 0;
+    last = events.length;
+  }
+}
 
 async function main() {
   const steps = [];
